@@ -591,6 +591,13 @@ def run(tier):
               'path', {'strategy_hierarchical': None, 'mutator_utils': None},
               'the sweep that follows sees no nodes / no proposals and '
               'declares a fixed point')
+    from . import c04 as _c04
+    sub04 = Check('C04', 'other', tier, [], [])
+    _cg, _zone, _via = _c04.compute_zone(prog)
+    chk.guard(_c04.rule_r1, sub04, prog, _cg, _zone)
+    Check.restrict(sub04, lambda wh, what: 'loop over' in what
+                   or 'continues with the next mutator' in what)
+    chk.adopt('C02.R10', 'a failure of one mutator costs only its own candidates: the loop over the mutators (and over the nodes) goes on, so the sweep that declares the fixed point has really asked every mutator at every node (shared with the per-mutator part of C04.R1)', sub04)
     extra = None
     if tier == 'thorough':
         from .. import selftest
